@@ -53,6 +53,7 @@ type scheduler struct {
 	once        map[*value]bool
 	sideVals    map[*value]value // atomic.Value / atomic.Pointer contents
 	nextHid     int
+	preemptAtSync bool
 	done        chan pathEnd
 	finished    bool
 	schedule    []int
@@ -122,7 +123,7 @@ func (s *scheduler) schedPoint(fr *frame, why string) {
 	case "lock", "rlock", "send", "recv", "select":
 		// switching before a synchronisation operation that does not block
 		// cannot be forced in a native replay; off unless asked for
-		if !s.i.ex.cfg.PreemptAtSync {
+		if !s.i.ex.cfg.PreemptAtSync && !s.preemptAtSync {
 			return
 		}
 	}
@@ -421,6 +422,13 @@ type chanv struct {
 	recvq  []*waiter
 	sendq  []*waiter
 	id     int
+	dirty  *bool // set for channels reachable from package-level state: any mutation invalidates the shared init state
+}
+
+func (ch *chanv) touch() {
+	if ch.dirty != nil {
+		*ch.dirty = true
+	}
 }
 
 func (i *interpreter) makeChan(size int) *chanv {
@@ -475,6 +483,7 @@ func (ch *chanv) canRecv() bool {
 
 // trySend performs a send that is known to be possible.
 func (ch *chanv) doSend(v value) {
+	ch.touch()
 	if ch.closed {
 		panic(runtimePanic{"send on closed channel"})
 	}
@@ -487,6 +496,9 @@ func (ch *chanv) doSend(v value) {
 }
 
 func (ch *chanv) doRecv() (value, bool) {
+	if len(ch.buf) > 0 || len(ch.sendq) > 0 {
+		ch.touch()
+	}
 	if len(ch.buf) > 0 {
 		v := ch.buf[0]
 		ch.buf = ch.buf[1:]
@@ -519,6 +531,7 @@ func (i *interpreter) chanSend(fr *frame, ch *chanv, v value) {
 		return
 	}
 	w := &waiter{g: s.current, val: v}
+	ch.touch()
 	ch.sendq = append(ch.sendq, w)
 	s.block(fr, func() bool { return w.done || ch.closed }, "chan send "+callerDesc(fr))
 	if !w.done {
@@ -540,6 +553,7 @@ func (i *interpreter) chanRecv(fr *frame, instr *ssa.UnOp, ch *chanv) value {
 		v, ok = ch.doRecv()
 	} else {
 		w := &waiter{g: s.current}
+		ch.touch()
 		ch.recvq = append(ch.recvq, w)
 		s.block(fr, func() bool { return w.done || ch.closed }, "chan receive "+fr.fn.String())
 		if w.done {
@@ -565,6 +579,7 @@ func (i *interpreter) chanClose(fr *frame, ch *chanv) {
 	if ch.closed {
 		panic(runtimePanic{"close of closed channel"})
 	}
+	ch.touch()
 	ch.closed = true
 }
 
@@ -622,6 +637,7 @@ func (i *interpreter) selectOp(fr *frame, instr *ssa.Select) value {
 			}
 			w := &waiter{g: s.current, sel: sel, caseIdx: k, val: c.val}
 			ws = append(ws, w)
+			c.ch.touch()
 			if c.send {
 				c.ch.sendq = append(c.ch.sendq, w)
 			} else {
